@@ -75,7 +75,8 @@ class Ctx:
     def executor(self, fl="asan"):
         if fl not in self.ex:
             root = "/dev/shm/lesim-%d-%s%s-%s" % (os.getpid(), self.tag, self.wid, fl)
-            self.ex[fl] = Executor(self.build.binary(fl), root)
+            env = {"TSAN_OPTIONS": "external_symbolizer_path=/usr/bin/llvm-symbolizer-14", "ASAN_SYMBOLIZER_PATH": "/usr/bin/llvm-symbolizer-14"}
+            self.ex[fl] = Executor(self.build.binary(fl), root, env=env)
         return self.ex[fl]
 
     def close(self):
@@ -358,6 +359,8 @@ def gate_candidates(mod, build, cands, seed_base, tier):
                 nondet.append({"index": c["index"], "class": c["class"], "rerun_classes": v.classes(), "hash": [c["hash"], h]})
                 continue
             seen_cls.add(c["class"])
+            if hasattr(mod, "pre_shrink"):
+                c["world"] = mod.pre_shrink(ctx, c["world"], plans, results, c["class"])
             small, attempts = shrink(mod, ctx, c["world"], c["class"], budget=150 if tier == "quick" else 600)
             plans, results, v = run_case(mod, ctx, small)
             path = replay_path(mod.ID, seed_base, c["index"], c["class"])
